@@ -105,6 +105,10 @@ type c02Scn struct {
 	Completer     bool         `json:"completer"` // manual: a thread completes the pre-read items
 	Shutdown      string       `json:"shutdown"`  // end | concurrent | none
 	Big           bool         `json:"big"`       // many threads: explored with bound-1 (the small ones with bound)
+	// FullOK: the scenario may legitimately end with producers blocked on a full queue that nobody drains. A final state
+	// in which every thread is blocked is then judged by the statement's liveness clause instead of being a deadlock per
+	// se: a producer may stay blocked only if its request does NOT fit (accepted-but-unfinished size + its size > capacity).
+	FullOK bool `json:"full_ok,omitempty"`
 }
 
 const (
@@ -578,6 +582,9 @@ func c02Scenarios(ctx *vr.Ctx) []*c02Scn {
 		// D2c: space freed while the queue is NOT empty must still wake the blocked producer
 		l = append(l, &c02Scn{Name: "D2c-" + kind, Kind: kind, Cap: 3, Block: true, Prefill: []c02Offer{one(1), one(2), one(3)}, PreRead: 1, Completer: true,
 			Producers: [][]c02Offer{{one(4)}}, Observers: 1, Shutdown: "none"})
+		// D2d: ONE completion, two blocked producers, the first one cancellable: the freed slot must go to whoever still wants it
+		l = append(l, &c02Scn{Name: "D2d-" + kind, Kind: kind, Cap: 1, Block: true, Prefill: []c02Offer{one(1)}, PreRead: 1, Completer: true,
+			Producers: [][]c02Offer{{{ID: 2, Size: 1, Ctx: 1}}, {one(3)}}, Cancel: []int{1}, FullOK: true, Shutdown: "none"})
 		// D4 sizes: zero, cap, cap+1 with an items-like sizer
 		l = append(l, &c02Scn{Name: "D4-" + kind, Kind: kind, Cap: 3, Consumers: 1, ConsumerPoint: true,
 			Producers: [][]c02Offer{{{ID: 1, Size: 0}, {ID: 2, Size: 3}}, {{ID: 3, Size: 4}, {ID: 4, Size: 2}}}, Observers: 1, Shutdown: "end"})
@@ -708,6 +715,27 @@ func c02RunOne(rp c02Replay, logf func(string, ...any)) (string, string) {
 
 func c02Verdict(sc *c02Scn, h *c02Hist, s *vs.Sched) (string, string) {
 	if v := s.Verdict(); v != "" {
+		if s.Deadlock && sc.FullOK {
+			var msize int64
+			for _, o := range h.ops {
+				if o.Kind == opOffer && o.Ret > 0 && o.Res == "ok" {
+					msize += o.Size
+				}
+				if o.Kind == opDone && o.Ret > 0 {
+					msize -= h.sizes[o.ID]
+				}
+			}
+			lost := ""
+			for _, o := range h.ops {
+				if o.Kind == opOffer && o.Ret == 0 && msize+o.Size <= sc.Cap {
+					lost = fmt.Sprintf("%s is blocked in Offer(id=%d,size=%d) although accepted-but-unfinished requests sum to %d of capacity %d", o.Who, o.ID, o.Size, msize, sc.Cap)
+				}
+			}
+			if lost == "" {
+				return "", "" // everybody left is blocked on a legitimately full queue
+			}
+			return "lost-wakeup:" + sc.Kind, fmt.Sprintf("scenario %s: %s and no thread can run; history so far: %s", sc.Name, lost, c02HistString(h))
+		}
 		if s.Deadlock {
 			return "deadlock:" + sc.Kind + ":" + c02Cancelled(len(h.cancelAt)) + ":" + s.DeadlockSig(), fmt.Sprintf("scenario %s: all threads blocked (%v at %v); history so far: %s", sc.Name, s.Blocked, s.BlockedAt, c02HistString(h))
 		}
